@@ -425,7 +425,8 @@ pub fn for_programs(
 pub fn for_firstchar_programs(p: &Params, rep: &mut Report, count: u64, mut f: impl FnMut(&Program, u64, &mut Report)) {
     let mut rng = p.rng(0x4643);
     for _ in 0..count {
-        let prog = firstchar_program(&mut rng);
+        // (every third one: an intersection of languages that are pairwise compatible but jointly empty)
+        let prog = if rng.chance(1, 3) { joint_program(&mut rng) } else { firstchar_program(&mut rng) };
         let seed = rng.next();
         rep.inc("first_character_programs");
         if let Err(msg) = guard(|| f(&prog, seed, rep)) {
